@@ -84,6 +84,7 @@ func verifTempDir() string
 func verifJSONEquivalent(a, b string) bool
 func verifMaybeUnencodable() any
 func verifAgeFile(name string)
+func verifAgeFiles(names []string)
 func verifNameEq(a, b string) bool
 func verifNoLocksHeld() bool
 func verifCaptureStd()
